@@ -223,6 +223,32 @@ func init() {
 					"Foo":    sgen.M{"type": "object", "properties": sgen.M{"barBaz": comp()}}}}
 			pcs = append(pcs, baseCase("c01-equal-declarations", schema, nil, "same-scope-"+kw))
 		}
+		// a format-typed string as the ONLY use of its package, in every kind of declared position: items of a
+		// definition's array, of the root array, of a map value, of a nested array; a map value; a definition of its own;
+		// a property of a definition (control) — the package must be imported wherever the type name is written
+		for _, f := range []string{"date-time", "date", "time", "ipv4", "ipv6"} {
+			str := func() sgen.M { return sgen.M{"type": "string", "format": f} }
+			arr := func(it sgen.M) sgen.M { return sgen.M{"type": "array", "items": it} }
+			shapes := map[string]sgen.M{
+				"definition-array-items":  {"type": "object", "$defs": sgen.M{"holidays": arr(str())}, "properties": sgen.M{"h": sgen.M{"$ref": "#/$defs/holidays"}}},
+				"root-array-items":        arr(str()),
+				"map-value-array-items":   {"type": "object", "additionalProperties": arr(str())},
+				"nested-array-items":      {"type": "object", "$defs": sgen.M{"grid": arr(arr(str()))}, "properties": sgen.M{"g": sgen.M{"$ref": "#/$defs/grid"}}},
+				"map-value":               {"type": "object", "additionalProperties": str()},
+				"definition-map-value":    {"type": "object", "$defs": sgen.M{"m": sgen.M{"type": "object", "additionalProperties": str()}}, "properties": sgen.M{"x": sgen.M{"$ref": "#/$defs/m"}}},
+				"property-array-items":    {"type": "object", "properties": sgen.M{"a": arr(str())}},
+				"definition-property":     {"type": "object", "$defs": sgen.M{"d": sgen.M{"type": "object", "properties": sgen.M{"t": str()}}}, "properties": sgen.M{"x": sgen.M{"$ref": "#/$defs/d"}}},
+				"array-of-objects-member": {"type": "object", "properties": sgen.M{"a": arr(sgen.M{"type": "object", "properties": sgen.M{"t": str()}})}},
+				"allOf-branch-member":     {"type": "object", "properties": sgen.M{"p": sgen.M{"allOf": []any{sgen.M{"type": "object", "properties": sgen.M{"t": str()}}, sgen.M{"type": "object", "properties": sgen.M{"n": sgen.M{"type": "integer"}}}}}}},
+			}
+			for _, name := range core.SortedKeys(shapes) {
+				for _, om := range []bool{false, true} {
+					pc := baseCase("c01-format-only-use", shapes[name], nil, f, name)
+					pc.Cfg.OnlyModels = om
+					pcs = append(pcs, pc)
+				}
+			}
+		}
 		res := runCases(c, pcs)
 		fails := 0
 		listed := map[string]bool{}
